@@ -22,7 +22,10 @@ theorem ctrl_sound (i : Instr) (s s' : State) (h : ctrlSpec i s = some s') : sem
   unfold ctrlSpec at h
   split at h
   all_goals (try (split at h <;> simp_all [sem, semExec, semCode, semStk, stkOp, Lens.exec, instr]; done))
-  all_goals simp at h
+  all_goals first
+    | (cases hs : s.exec <;> simp_all [sem, semExec, semCode, semStk, stkOp, Lens.exec, instr]; done)
+    | (cases hs : s.code <;> simp_all [sem, semExec, semCode, semStk, stkOp, Lens.exec, instr]; done)
+    | simp at h
 
 /-! ## EXEC.LOOP runs a well-behaved body exactly destination-many times -/
 
